@@ -9,6 +9,7 @@ From PV Require Import Extract.RunC13.
 From PV Require Import Extract.RunC06.
 From PV Require Import Extract.RunC20.
 From PV Require Import Extract.RunC15.
+From PV Require Import Extract.RunC18.
 Import ListNotations.
 Local Open Scope N_scope.
 
@@ -108,5 +109,7 @@ Definition run (cmd : N) (arg : sx) : sx :=
   | 152 => run_c15_2 arg
   | 153 => run_c15_3 arg
   | 154 => run_c15_4 arg
+  | 180 => run_c18_parse arg
+  | 181 => run_c18_checks arg
   | _ => L [A 999999]
   end.
